@@ -36,6 +36,10 @@ def parseItemLay (s : String) : Option ItemLay :=
   | [pre, post, i1, i2, i3, i4, bl] => do
     pure { pre := ← hexB pre, post := ← hexB post, i1 := ← hexB i1, i2 := ← hexB i2, i3 := ← hexB i3, i4 := ← hexB i4,
            blanks := ← parseBlankList bl }
+  -- with the spelling of the size field: `+` (0|1) and the number of leading zeros
+  | [pre, post, i1, i2, i3, i4, bl, plus, zeros] => do
+    pure { pre := ← hexB pre, post := ← hexB post, i1 := ← hexB i1, i2 := ← hexB i2, i3 := ← hexB i3, i4 := ← hexB i4,
+           blanks := ← parseBlankList bl, szPlus := plus == "1", szZeros := ← zeros.toNat? }
   | _ => none
 
 def parseLayout (kv : List (String × String)) : Option Layout := do
